@@ -1,6 +1,6 @@
 (** C19 — codec libraries invert each other and are total on hostile input: property theorems only. *)
 From ChibiV Require Import C19.Prims C19.Base64 C19.Base64Proofs C19.IntCodec C19.IntCodecProofs
-  C19.Json C19.JsonProofs C19.JsonValueProofs C19.QP C19.QPProofs C19.Uri C19.UriProofs.
+  C19.Json C19.JsonProofs C19.JsonValueProofs C19.JsonTextProofs C19.QP C19.QPProofs C19.Uri C19.UriProofs.
 Local Open Scope Z_scope.
 
 (** base64: decode . encode = id on every byte string (any length class mod 3) *)
@@ -71,6 +71,13 @@ Theorem json_roundtrip : forall (v : json) (fuel : nat),
   exists t, jwrite v = Some t /\ jread fuel 0 t = Ok (utf8_val v, []).
 Proof. exact JsonValueProofs.json_roundtrip. Qed.
 Print Assumptions json_roundtrip.
+
+(** whatever value the writer accepts (strings of any non-negative code points), its text is printable ASCII only:
+    control characters, the quote, the backslash and everything non-ASCII leave as escapes *)
+Theorem json_writer_emits_ascii : forall (v : json) (t : list Z),
+  nonneg_strings v -> jwrite v = Some t -> Forall printable t.
+Proof. exact (fun v t H => JsonTextProofs.json_writer_ascii v H t). Qed.
+Print Assumptions json_writer_emits_ascii.
 
 (** quoted-printable (repaired encoder, pinned decoder) *)
 Theorem qp_roundtrip : forall bs, bytes bs -> qp_decode (qp_encode bs) = Some bs.
